@@ -154,13 +154,15 @@ def seq_parts(pid):
           + lifted('%s_disk_revolve_sequence_is_source' % pid, 'SeqGenSpec', 'disk_revolve_top_is_source', '... DiskRevolve')
           + lifted('%s_periodic_sequence_is_source' % pid, 'SeqGenSpec', 'periodic_top_is_source', '... PeriodicDiskRevolve (the period is at least 1: PeriodGen.mxrr_pos)')
           + lifted('%s_hrevolve_sequence_is_source' % pid, 'HSeqGenSpec', 'hrevolve_is_source', '... HRevolve: hrevolve_aux / hrevolve_recurse (mutually recursive; costs integers or +infinity) rendered by the translator (Gen/HSeqGen.v), proved equal to HRevSeq.aux / HRevSeq.recurse for every chain length l >= 0, with the test `the sequence built so far ends in a Discard` read as is_discard (last_op ..)')
+          + lifted('%s_argmin_is_source' % pid, 'ArgminGenSpec', 'argmin_shape_is_model', '... argmin of basic_functions.py, rendered once over any element type with its <= (Gen/ArgminGen.v): on integers it is RevSeq.argmin with IndexError on the empty list (py_argmin, as the sequence generators above call it)')
+          + lifted('%s_argmin_costs_is_source' % pid, 'ArgminGenSpec', 'cargmin_shape_is_model', '... and on costs that may be infinite HRevSeq.argmin')
           + lifted('%s_hopt_table_is_source' % pid, 'HoptGenSpec', 'hopt_shape_is_model', '... and the cost tables of H-Revolve: get_hopt_table rendered by the translator for two storage levels (Gen/HoptGen.v: assignments into opt[k][l][m] / optp[k][l][m] are hset, reads hget, float(inf) is Inf, l * (l + 1) / 2 exact division), proved equal to HRevSeq.get_hopt_table for all arguments')
           + lifted('%s_optinf_table_is_source' % pid, 'OptInfGenSpec', 'optinf_shape_is_model', '... and the Disk-Revolve table: get_opt_inf_table (one_read_disk = True) rendered by the translator (Gen/OptInfGen.v: the Table is a list that only grows by append), proved equal to RevSeq.get_opt_inf_table for all arguments')
           + lifted('%s_opt0_table_is_source' % pid, 'Opt0GenSpec', 'opt0_shape_is_model', '... and the Revolve table: get_opt_0_table rendered by the translator (Gen/Opt0Gen.v: a list of rows that only grow by append), proved equal to RevSeq.get_opt_0_table for every slot count mmax >= 0'))
 files = {}
 for pid, cls in [('C01','C01'),('C02','C02'),('C03','C03'),('C04','C04'),('C08','C08'),('C12','C12')]:
     body = HEAD % (pid, TITLES[pid]) + safety(pid, cls, '')
-    body = body.replace("From CS Require Import Actions", "From CS Require Ops RevConv RevBridge4 RevolveRun Refuted DiskRun DiskBridge3 HRevRun HRevTop GenLang GenBasic GenLang2 GenTwo GenLang3 GenMulti GenLang4 GenConv GenLang5 GenMixed SeqGenSpec HSeqGenSpec HoptGenSpec OptInfGenSpec Opt0GenSpec.\nFrom CS Require Import Actions")
+    body = body.replace("From CS Require Import Actions", "From CS Require Ops RevConv RevBridge4 RevolveRun Refuted DiskRun DiskBridge3 HRevRun HRevTop GenLang GenBasic GenLang2 GenTwo GenLang3 GenMulti GenLang4 GenConv GenLang5 GenMixed SeqGenSpec HSeqGenSpec ArgminGenSpec HoptGenSpec OptInfGenSpec Opt0GenSpec.\nFrom CS Require Import Actions")
     if pid != 'C04':
         body += disk_safety(pid, cls)
         body += hrev_safety(pid, cls)
@@ -253,7 +255,7 @@ mk('C06', ['MixInv','MixDP','GenLang5','GenMixed'], [C06_total,
    lifted('C06_plan_1','MixDP','plan_1',''), lifted('C06_plan_ge2','MixDP','plan_ge2','facts of the concrete planner model: the step kind and length it prescribes'),
    lifted('C06_plan_2','MixDP','plan_2',''), lifted('C06_C_ics','MixDP','C_ics','cost recurrence, restart checkpoint'), lifted('C06_C_adj','MixDP','C_adj','cost recurrence, adjoint-dependency checkpoint'),
    lifted('C06_planC_unfold_partial','MixDP','planC_unfold','PARTIAL: the planner value is the minimum over the candidates of its own recurrence (one-level unfolding); that no executable schedule whatsoever does better (Maddison 2024, Thm 1) is not proved')])
-mk('C07', ['RevCost','RevConv','RevBridge4','RevolveRun','Opt0Table','DiskCost','DiskCount','HRevTable','HRevCost','HRevCount','SeqGenSpec','HSeqGenSpec','HoptGenSpec','OptInfGenSpec','Opt0GenSpec'], [seq_parts('C07'),
+mk('C07', ['RevCost','RevConv','RevBridge4','RevolveRun','Opt0Table','DiskCost','DiskCount','HRevTable','HRevCost','HRevCount','SeqGenSpec','HSeqGenSpec','ArgminGenSpec','HoptGenSpec','OptInfGenSpec','Opt0GenSpec'], [seq_parts('C07'),
    lifted('C07_revolve_forward_total','RevolveRun','revolve_forward_total','Revolve on the extracted model, every cost vector with uf > 0: forward steps at exhaustion = N + P s (N-1), P = the step-count DP (Opt0Table.P: minimum over all first splits); reversed steps = N by the run theorem; no DISK traffic (budget 0)'),
    lifted('C07_revolve_table_optimum','RevolveRun','revolve_table_optimum','... and the entry of the extracted get_opt_0_table for the whole problem is N ub + uf P s (N-1): stream cost uf*fwd + ub*N = table optimum + N uf, the memory-only optimum'),
    lifted('C07_opt0_values','Opt0Table','opt0_values','every entry of the table the generators read is (l+1) ub + uf P m l'),
@@ -291,7 +293,7 @@ Proof. exact twolevel_run. Qed.
 Print Assumptions C09_twolevel_passes.
 
 """
-mk('C09', ['MSTerm','OnlineFlags','Flags','RevConv','RevBridge4','RevolveRun','PassRepeat','Online','DiskRun','DiskBridge3','HRevRun','HRevTop','GenLang','GenBasic','GenLang2','GenTwo','GenLang3','GenMulti','GenLang4','GenConv','GenLang5','GenMixed','SeqGenSpec','HSeqGenSpec','HoptGenSpec','OptInfGenSpec','Opt0GenSpec'], [
+mk('C09', ['MSTerm','OnlineFlags','Flags','RevConv','RevBridge4','RevolveRun','PassRepeat','Online','DiskRun','DiskBridge3','HRevRun','HRevTop','GenLang','GenBasic','GenLang2','GenTwo','GenLang3','GenMulti','GenLang4','GenConv','GenLang5','GenMixed','SeqGenSpec','HSeqGenSpec','ArgminGenSpec','HoptGenSpec','OptInfGenSpec','Opt0GenSpec'], [
    lifted('C09_basic_source_is_model','GenBasic','basic_from_start',BASIC_SRC),
    lifted('C09_twolevel_source_is_model','GenTwo','two_from_start',TWO_SRC),
    lifted('C09_multistage_source_is_model','GenMulti','multi_from_start',MULTI_SRC),
@@ -342,7 +344,7 @@ mk('C14', ['TopK','AllocProofs','SplitProofs','AllocMin','AllocGlue','GenLang3',
    lifted('C14_alloc_min_disk','AllocMin','alloc_min_disk','last clause, the allocation step: for any non-negative per-position weights w, the labelling allocate_snapshots computes (alloc_labels w r) puts the least total weight on DISK among all RAM/DISK labellings with at most r RAM positions'),
    lifted('C14_disk_accesses_are_weights','AllocGlue','disk_accesses_are_weights','the glue: for every configuration c with the same max_n, trajectory and number of labels as the dry-run configuration c0, the number of accesses (checkpoint writes + loads) of its stream that name storage st is lsum st (labels c) w, w = the weights allocate_snapshots computes from the dry run; (streams are taken over fuel_for N requests, as in the model of allocate_snapshots)'),
    lifted('C14_min_disk_accesses','AllocGlue','multistage_min_disk','LAST CLAUSE: the constructed MultistageCheckpointSchedule(N, ram, disk) has the fewest DISK accesses among all label vectors of the same length with at most min(ram, N-1) RAM positions (all three constructor branches)')])
-mk('C15', ['MemoCoh','SchedProofs','GenLang','GenBasic','GenLang2','GenTwo','GenLang3','GenMulti','GenLang4','GenConv','GenLang5','GenMixed','SeqGenSpec','HSeqGenSpec','HoptGenSpec','OptInfGenSpec','Opt0GenSpec','TabulGenSpec'], [
+mk('C15', ['MemoCoh','SchedProofs','GenLang','GenBasic','GenLang2','GenTwo','GenLang3','GenMulti','GenLang4','GenConv','GenLang5','GenMixed','SeqGenSpec','HSeqGenSpec','ArgminGenSpec','HoptGenSpec','OptInfGenSpec','Opt0GenSpec','TabulGenSpec'], [
    lifted('C15_basic_source_is_model','GenBasic','basic_from_start','THE STREAM IS A FUNCTION OF THE PARAMETERS AND THE REQUESTS: the generators, sequence generators, tables and planners below are re-translated from the source on every run (Gen/*.v) into pure Gallina terms -- no module-level or class-level state exists in them -- and proved to give the observations of the extracted model under every history; a source in which one object can influence another is outside the translated subset.  ' + BASIC_SRC),
    lifted('C15_twolevel_source_is_model','GenTwo','two_from_start',TWO_SRC), lifted('C15_multistage_source_is_model','GenMulti','multi_from_start',MULTI_SRC),
    lifted('C15_revolve_family_converter_is_source','GenConv','conv_from_start',CONV_SRC), lifted('C15_mixed_source_is_model','GenMixed','mixed_from_start',MIXED_SRC), seq_parts('C15'),
@@ -387,7 +389,7 @@ Proof. exact twolevel_run. Qed.
 Print Assumptions C17_twolevel_complete.
 
 '''
-mk('C17', ['NAdv','AllocProofs','InvalidProofs','RevConv','RevBridge4','RevolveRun','RevBridge6','DiskRun','DiskBridge3','DiskGen','PeriodGen','HRevTotal','HRevTop','SeqGenSpec','HSeqGenSpec','HoptGenSpec','OptInfGenSpec','Opt0GenSpec'], [C17_complete, seq_parts('C17'),
+mk('C17', ['NAdv','AllocProofs','InvalidProofs','RevConv','RevBridge4','RevolveRun','RevBridge6','DiskRun','DiskBridge3','DiskGen','PeriodGen','HRevTotal','HRevTop','SeqGenSpec','HSeqGenSpec','ArgminGenSpec','HoptGenSpec','OptInfGenSpec','Opt0GenSpec'], [C17_complete, seq_parts('C17'),
    lifted('C17_multistage_construct_total','AllocTotal','construct_total','the Multistage constructor returns for every tuple of the domain'),
    lifted('C17_allocate_total','AllocTotal','allocate_total','allocate_snapshots (dry run of the schedule with placeholder labels, weighing, top-k) never raises on the domain'),
    lifted('C17_n_advance_total','NAdv','n_advance_spec','n_advance never raises on its domain; range; limiting cases; optimal region'),
